@@ -1,8 +1,65 @@
 (** C13 — Identifier index and storage stay in one-to-one correspondence.
-    Property theorems only; proofs are in Proofs/. *)
-From Brood Require Import Base World BaseFacts Inv.
+    Property theorems only; proofs are in Proofs/.
+    [Inv] (Proofs/Inv.v): shapes well-formed; one archetype per component set;
+    an active slot points at the row holding its identifier and every stored row
+    is pointed at by its identifier's slot (so the accepted identifiers are
+    exactly the stored ones, each entity reachable through exactly one);
+    the free queue is duplicate-free and is exactly the set of inactive slots
+    (released identifiers are reusable, none lost or duplicated); len() counts
+    the stored rows; type-id lookup targets exist. *)
+From Brood Require Import Base World Multi BaseFacts Inv StepInv CloneEq SerdeL.
 
 Theorem C13_init : forall n res, Inv (empty_world n res).
 Proof. exact empty_world_inv. Qed.
 Check (C13_init : forall n res, Inv (empty_world n res)).
 Print Assumptions C13_init.
+
+(** After every single operation (any oracle answer for the clear order). *)
+Theorem C13_step : forall w o w' r evs, Inv w -> step w o = Some (w', r, evs) -> Inv w'.
+Proof. exact step_inv. Qed.
+Check (C13_step : forall w o w' r evs, Inv w -> step w o = Some (w', r, evs) -> Inv w').
+Print Assumptions C13_step.
+
+(** Every state reachable by any history from a new world. *)
+Theorem C13_reachable : forall n res ops w, run (empty_world n res) ops = Some w -> Inv w.
+Proof. intros n res ops w H. exact (run_inv ops (empty_world n res) w (empty_world_inv n res) H). Qed.
+Check (C13_reachable : forall n res ops w, run (empty_world n res) ops = Some w -> Inv w).
+Print Assumptions C13_reachable.
+
+(** … and no history ever gets stuck on an unchecked access. *)
+Theorem C13_total : forall n res ops, run (empty_world n res) ops <> None.
+Proof. intros n res ops. exact (run_safe ops (empty_world n res) (empty_world_inv n res)). Qed.
+Check (C13_total : forall n res ops, run (empty_world n res) ops <> None).
+Print Assumptions C13_total.
+
+(** Through clone, clone_from and deserialization. *)
+Theorem C13_clone : forall w w' evs, Inv w -> clone_world w = Some (w', evs) -> Inv w'.
+Proof. intros w w' evs HI E. rewrite (clone_world_same _ _ _ E). exact HI. Qed.
+Check (C13_clone : forall w w' evs, Inv w -> clone_world w = Some (w', evs) -> Inv w').
+Print Assumptions C13_clone.
+
+Theorem C13_clone_from : forall dst src w' evs, Inv dst -> Inv src -> w_n dst = w_n src ->
+  clone_from_world dst src = Some (w', evs) -> Inv w'.
+Proof. exact clone_from_inv. Qed.
+Check (C13_clone_from : forall dst src w' evs, Inv dst -> Inv src -> w_n dst = w_n src ->
+  clone_from_world dst src = Some (w', evs) -> Inv w').
+Print Assumptions C13_clone_from.
+
+Theorem C13_deserialize : forall n s w, de_world n s = inr w -> Inv w.
+Proof. exact de_world_inv. Qed.
+Check (C13_deserialize : forall n s w, de_world n s = inr w -> Inv w).
+Print Assumptions C13_deserialize.
+
+(** Non-vacuity: a history with slot reuse, a swap-remove of a non-last row,
+    two shape changes, a batch larger than the free list, clear and shrink runs
+    to completion (so every premise above is met along the way). *)
+Example C13_example :
+  match run (empty_world 3 [1%N])
+            [Insert [(0, 5%N)]; Insert [(0, 6%N)]; Insert [(2, 7%N); (0, 8%N)];
+             Remove (0, 0%N); EntryAdd (1, 0%N) 1 9%N; EntryRemove (2, 0%N) 0;
+             Extend [1; 0] [[1%N; 2%N]; [3%N; 4%N]; [5%N; 6%N]];
+             Remove (1, 0%N); ShrinkToFit; Clear []; Insert [(1, 1%N)]] with
+  | Some w => w_len w = 1 /\ length (w_free w) = 4
+  | None => False
+  end.
+Proof. vm_compute. auto. Qed.
